@@ -100,6 +100,9 @@ func directedNesting(c *ctx) {
 		// an element of the skip-content set that is allowed (with attributes, or by a pattern), inside disallowed skip-content elements
 		{{Kind: "AE", Names: []string{"b"}}, {Kind: "AA", Names: []string{"data"}, Scope: "E", ScopeEl: []string{"object"}}, {Kind: "SK", Names: []string{"u", "my-el"}},
 			{Kind: "AEM", Re: bmx.NewRE(`^my-`)}, {Kind: "AA", Names: []string{"href"}, Scope: "E", ScopeEl: []string{"a"}}},
+		// ... and whose tags are kept (bare through AllowNoAttrs on a pattern, or with a surviving attribute)
+		{{Kind: "AE", Names: []string{"b"}}, {Kind: "SK", Names: []string{"u", "my-el", "my-x"}}, {Kind: "AA", Empty: true, Scope: "M", ScopeRe: bmx.NewRE(`^my-el$`)},
+			{Kind: "AA", Names: []string{"id"}, Scope: "M", ScopeRe: bmx.NewRE(`^my-x$`)}, {Kind: "AA", Names: []string{"href"}, Scope: "E", ScopeEl: []string{"a"}}},
 	}
 	depth := 3
 	if c.n > 20000 {
@@ -337,6 +340,30 @@ func directedSoup(c *ctx) {
 		}
 		opens("", nil, 0)
 	}
+	directedComments(c)
+}
+
+// directedComments: comments under AllowComments whose text, once the tokenizer has decoded its
+// character references, begins or ends like a comment terminator, holds tags, or holds the pieces of
+// a terminator; around and inside kept, dropped and skipped elements.
+func directedComments(c *ctx) {
+	bodies := []string{"&gt; <b> is bold", "-&gt;<b>x", "&#62;<i>y", "&GT<b>z", ">", "->", "--!&gt;<b>", "&amp;gt;", "-", "--", "!", "[if (gte mso 9)&(lt mso 16)]><b>x</b><![endif]",
+		"x--&gt;<b>y", "x--!&gt;<i>", "<!--", "--!", "&lt;!--", "a&amp;b", "a&b", "&#45;&#45;&gt;<b>q", "x-", "x--", "x--!", "&#x2d;->", "<b>in</b>", "</p><b>", "<script>s()</script>", ""}
+	for v := 0; v < 3; v++ {
+		ops := []*bmx.Op{{Kind: "AE", Names: []string{"b", "i", "p"}}, {Kind: "AC"}, {Kind: "SK", Names: []string{"u"}}}
+		if v == 1 {
+			ops = append(ops, &bmx.Op{Kind: "SP", Flag: true})
+		}
+		if v == 2 {
+			ops = []*bmx.Op{{Kind: "AC"}}
+		}
+		pid, pol := c.policy(ops)
+		for _, b := range bodies {
+			for _, f := range []string{"<p>one <!--%s--> two</p>", "<!--%s-->", "<b><!--%s--></b><i>t</i>", "<u>s<!--%s--></u>after", "<x><!--%s--></x>", "<p><!--%s--!>t</p>", "<p><!--%s"} {
+				c.san(pid, pol, []byte(fmt.Sprintf(f, b)))
+			}
+		}
+	}
 }
 
 // C11: all orders and multiplicities of href/rel/target × rel values × the 32 option sets
@@ -383,6 +410,50 @@ func directedC11(c *ctx) {
 			}
 			c.san(pid, pol, []byte("<"+el+" "+strings.Join(attrs, " ")+">t</"+el+">"))
 		}
+	}
+	// the link options as a state machine: every sequence of up to three setter calls (each option
+	// switched on or off), on a bare policy and after AllowStandardURLs's own RequireNoFollowOnLinks(true):
+	// an option is what its last call said, whatever was said about the others in between
+	{
+		type call struct {
+			kind string
+			on   bool
+		}
+		var calls []call
+		for _, k := range []string{"NF", "NFQ", "NR", "NRQ", "TB"} {
+			calls = append(calls, call{k, true}, call{k, false})
+		}
+		var seqs [][]call
+		for _, a := range calls {
+			seqs = append(seqs, []call{a})
+			for _, b := range calls {
+				if b.kind == a.kind {
+					continue
+				}
+				seqs = append(seqs, []call{a, b})
+				for _, d := range calls {
+					if d.kind == b.kind || (d.kind != a.kind && c.r.Intn(4) != 0) {
+						continue
+					}
+					seqs = append(seqs, []call{a, b, d})
+				}
+			}
+		}
+		docs := []string{"<a href=\"http://example.com/\">t</a>", "<a href=\"/local\">t</a>", "<a href=\"http://example.com/\" target=\"_blank\" rel=\"author\">t</a>", "<area href=\"//host/x\">"}
+		for si, sq := range seqs {
+			ops := []*bmx.Op{{Kind: "AE", Names: els}, {Kind: "AA", Names: []string{"href", "rel", "target"}, Scope: "G"}, {Kind: "US", Names: []string{"http", "https"}}, {Kind: "RU", Flag: true}}
+			if si%2 == 1 {
+				ops = append(ops, &bmx.Op{Kind: "NF", Flag: true})
+			}
+			for _, k := range sq {
+				ops = append(ops, &bmx.Op{Kind: k.kind, Flag: k.on})
+			}
+			pid, pol := c.policy(ops)
+			for _, d := range docs {
+				c.san(pid, pol, []byte(d))
+			}
+		}
+		c.stat("link_option_sequences", len(seqs))
 	}
 	families["san"](c)
 }
@@ -530,8 +601,36 @@ func directedC03(c *ctx) {
 		for _, d := range []string{"<img src=\"http://a.example/1.png\">", "<audio src=\"http://a.example/a.mp3?x=1\"></audio>", "<img src=\"/local.png\">", "<img src=\"https://a.example/2.png\">"} {
 			c.san(pid, pol, []byte(d))
 		}
+		// every URL of the pool as a src under the rewriter (what the validated URL prints as need not
+		// parse again: the attribute is dropped then, not passed on)
+		for _, u := range append(append([]string{}, bmx.URLPool...), "/%2fa\"b.tracker.example.net/pixel.gif", "/%2F^/x.png", "%2f/{x}.host/p.gif", "/%2fhost%3Ax/<.mp4", "/%2f`x`/y", "/%2Fa|b/c") {
+			c.san(pid, pol, []byte("<img src=\""+strings.ReplaceAll(u, "\"", "&quot;")+"\"><audio src='"+strings.ReplaceAll(u, "'", "&#39;")+"'></audio>"))
+		}
 	}
 	families["san"](c)
+}
+
+// directedPatterns: element patterns that are anchored literals, unanchored literals and half-anchored
+// ones, against element names that equal, contain, start or end with the literal.
+func directedPatterns(c *ctx) {
+	pats := []string{`^a$`, `^b$`, `^x-note$`, `\Aabc\z`, `^(?:abc)$`, `abc`, `^abc`, `abc$`, `^(a|b)$`, `^[a]$`, `a`, `^$`, `^x-`}
+	names := []string{"a", "b", "abc", "xabcx", "abcx", "xabc", "iframe", "textarea", "base", "object", "embed", "button", "x-note", "x-notepad", "my-x-note", "x", "ab", "table"}
+	for i, ps := range pats {
+		re := bmx.NewRE(ps)
+		var ops []*bmx.Op
+		switch i % 3 {
+		case 0:
+			ops = []*bmx.Op{{Kind: "AEM", Re: re}, {Kind: "AA", Names: []string{"id"}, Scope: "G"}}
+		case 1:
+			ops = []*bmx.Op{{Kind: "AA", Names: []string{"id"}, Scope: "M", ScopeRe: re}, {Kind: "AS", Names: []string{"color"}, Scope: "M", ScopeRe: bmx.NewRE(ps)}, {Kind: "AA", Names: []string{"style"}, Scope: "G"}}
+		default:
+			ops = []*bmx.Op{{Kind: "AA", Empty: true, Scope: "M", ScopeRe: re}, {Kind: "AE", Names: []string{"i"}}}
+		}
+		pid, pol := c.policy(ops)
+		for _, n := range names {
+			c.san(pid, pol, []byte("<"+n+" id=\"1\" style=\"color: red\">t</"+n+">u<"+n+">v</"+n+"><"+n+"/>"))
+		}
+	}
 }
 
 // C07: documents written entirely in the policy's own vocabulary, canonical serialisation
@@ -560,6 +659,29 @@ func directedC07(c *ctx) {
 				c.san(upid, upol, []byte(fmt.Sprintf(d, u)))
 				c.san(pid, pol, []byte(fmt.Sprintf(strings.Replace(d, " rel=\"nofollow\"", "", 1), u)))
 			}
+		}
+	}
+	// URLs with raw text outside ASCII: every UTF-8 continuation byte (U+00C0..U+00FF encode as C3 80..C3 BF)
+	// in the query, the fragment, the path and a mailto address, and the control characters that are
+	// white space for unicode.IsSpace but not for the library
+	{
+		upid, upol := c.shipped("@UGC")
+		ops := []*bmx.Op{{Kind: "AE", Names: []string{"a", "img", "q", "b"}}, {Kind: "AA", Names: []string{"href", "src", "cite"}, Scope: "G"}, {Kind: "US", Names: []string{"https", "mailto"}}}
+		pid, pol := c.policy(ops)
+		var urls []string
+		for r := rune(0xC0); r <= 0xFF; r++ {
+			ch := string(r)
+			urls = append(urls, "https://example.com/search?q=voil"+ch, "https://example.com/p#s"+ch+"x")
+			if r%8 == 0 {
+				urls = append(urls, "https://example.com/"+ch+"/x", "mailto:j"+ch+"@example.com")
+			}
+		}
+		for _, ch := range []string{"\u0420\u0445", "\u3000", "\u2003", "\u0085", "\u00a0", "\r", "\v", "\f", "\u200b", "\ufeff"} {
+			urls = append(urls, "https://example.com/?q=a"+ch+"b", "https://example.com/a"+ch+"b")
+		}
+		for _, u := range urls {
+			c.san(upid, upol, []byte("<a href=\""+u+"\" rel=\"nofollow\">t</a>"))
+			c.san(pid, pol, []byte("<a href=\""+u+"\">t</a><img src=\""+u+"\">"))
 		}
 	}
 	// one attribute covered by an element rule and a global rule with different patterns
@@ -635,7 +757,7 @@ func directedC07(c *ctx) {
 	{
 		ops := []*bmx.Op{{Kind: "AE", Names: []string{"p", "b"}}, {Kind: "AA", Names: []string{"title"}, Scope: "G"}}
 		pid, pol := c.policy(ops)
-		for _, n := range []int{5000, 70000, 140000} {
+		for _, n := range []int{5000, 70000, 140000, 1<<20 + 17} {
 			for _, doc := range []string{"<p>" + strings.Repeat("lorem ipsum ", n/12) + "</p>", "<p title=\"" + strings.Repeat("a", n) + "\">t</p>",
 				strings.Repeat("<b>x</b>", n/8)} {
 				ok := pol.Sanitize(doc) == doc && string(pol.SanitizeBytes([]byte(doc))) == doc && pol.SanitizeReader(strings.NewReader(doc)).String() == doc
@@ -946,4 +1068,111 @@ func directedStaged(c *ctx) {
 		}
 	}
 	c.stat("staged_policies", n)
+	directedPatterns(c)
+}
+
+// directedOverlap: several builder calls that give rules to the same attribute (or style property) in
+// the same scope, each call naming several attributes: every attribute keeps every rule it was given
+// and only those (rule lists of different attributes share nothing).
+func directedOverlap(c *ctx) {
+	attrs := []string{"title", "lang", "id", "name"}
+	vals := []string{"abc", "123", "ab1", "", "ABC", "a-b"}
+	pats := []string{`^[a-z]+$`, `^[0-9]+$`, `^[a-z0-9]+$`, `^.{0,2}$`}
+	scopes := []func() *bmx.Op{
+		func() *bmx.Op { return &bmx.Op{Scope: "E", ScopeEl: []string{"b", "i"}} },
+		func() *bmx.Op { return &bmx.Op{Scope: "G"} },
+		func() *bmx.Op { return &bmx.Op{Scope: "M", ScopeRe: bmx.NewRE(`^(b|my-.*)$`)} },
+	}
+	n := 0
+	for si, sc := range scopes {
+		var sharedRe *bmx.RE
+		if si == 2 {
+			sharedRe = bmx.NewRE(`^(b|my-.*)$`)
+		}
+		mk := func(names []string, re *bmx.RE) *bmx.Op {
+			o := sc()
+			if sharedRe != nil {
+				o.ScopeRe = sharedRe
+			}
+			o.Kind, o.Names, o.Re = "AA", names, re
+			return o
+		}
+		for first := 2; first <= 4; first++ {
+			for again := 0; again < first; again++ {
+				for variant := 0; variant < 3; variant++ {
+					ops := []*bmx.Op{{Kind: "AE", Names: []string{"b", "i", "u"}}, {Kind: "AEM", Re: bmx.NewRE(`^my-`)}}
+					ops = append(ops, mk(append([]string{}, attrs[:first]...), bmx.NewRE(pats[0])))
+					switch variant {
+					case 0:
+						ops = append(ops, mk([]string{attrs[again]}, bmx.NewRE(pats[1])))
+					case 1:
+						ops = append(ops, mk([]string{attrs[again]}, nil))
+					case 2:
+						ops = append(ops, mk([]string{attrs[again], attrs[(again+1)%first]}, bmx.NewRE(pats[3])), mk([]string{attrs[again]}, bmx.NewRE(pats[1])))
+					}
+					pid, pol := c.policy(ops)
+					for _, el := range []string{"b", "u", "my-x"} {
+						for _, v := range vals {
+							doc := "<" + el
+							for _, a := range attrs {
+								doc += " " + a + "=\"" + v + "\""
+							}
+							c.san(pid, pol, []byte(doc+">t</"+el+">"))
+						}
+					}
+					n++
+				}
+			}
+		}
+	}
+	// style properties: the same shape through AllowStyles
+	props := []string{"color", "width", "float", "text-align"}
+	svals := []string{"red", "10px", "left", "center", "#fff", "x1"}
+	for si := 0; si < 3; si++ {
+		sharedRe := bmx.NewRE(`^(b|my-.*)$`)
+		mk := func(names []string, re *bmx.RE, enum []string) *bmx.Op {
+			o := &bmx.Op{Kind: "AS", Names: names, Re: re, Enum: enum, Scope: []string{"E", "G", "M"}[si]}
+			if si == 0 {
+				o.ScopeEl = []string{"b", "i"}
+			}
+			if si == 2 {
+				o.ScopeRe = sharedRe
+			}
+			return o
+		}
+		for first := 2; first <= 4; first++ {
+			for again := 0; again < first; again++ {
+				for variant := 0; variant < 4; variant++ {
+					ops := []*bmx.Op{{Kind: "AE", Names: []string{"b", "i", "u"}}, {Kind: "AEM", Re: bmx.NewRE(`^my-`)}, {Kind: "AA", Names: []string{"style"}, Scope: "G"}}
+					if variant == 3 {
+						// several properties in one call, each left to its own default handler (one has none)
+						rot := append(append([]string{}, props[again:first]...), props[:again]...)
+						ops = append(ops, mk(append(rot, "x-unregistered"), nil, nil))
+					} else {
+						ops = append(ops, mk(append([]string{}, props[:first]...), bmx.NewRE(`^[a-z]+$`), nil))
+					}
+					switch variant {
+					case 0:
+						ops = append(ops, mk([]string{props[again]}, bmx.NewRE(`^[0-9]+px$`), nil))
+					case 1:
+						ops = append(ops, mk([]string{props[again]}, nil, []string{"#fff", "x1"}))
+					case 2:
+						ops = append(ops, mk([]string{props[again]}, nil, nil))
+					}
+					pid, pol := c.policy(ops)
+					for _, el := range []string{"b", "u", "my-x"} {
+						for _, v := range svals {
+							doc := "<" + el + " style=\""
+							for _, p := range append(props, "x-unregistered") {
+								doc += p + ": " + v + "; "
+							}
+							c.san(pid, pol, []byte(doc+"\">t</"+el+">"))
+						}
+					}
+					n++
+				}
+			}
+		}
+	}
+	c.stat("overlap_policies", n)
 }
